@@ -136,11 +136,8 @@ pub fn validate_doc(doc: &[u8], cfg_bits: u8) -> Result<(), String> {
         }
         pos += want.consumed;
         state = want.next_state;
-        let expect_pos = (pos - want.bom.min(pos)) as u64;
-        let bom_total = if doc.starts_with(&[0xEF, 0xBB, 0xBF]) { 3 } else { 0 };
-        let real_pos = reader.buffer_position() + bom_total as u64;
+        let real_pos = reader.buffer_position();
         let ref_pos = if state == ST_MARKUP { pos as u64 - 1 } else { pos as u64 };
-        let _ = expect_pos;
         if real_pos != ref_pos {
             return Err(format!("{}: position {} vs reference {}", where_, real_pos, ref_pos));
         }
